@@ -1019,6 +1019,8 @@ class Part(object):
             The end time of the object
 
         """
+        # the new object may add a staff
+        self._number_of_staves = None
         if start is not None:
             if start < 0:
                 raise InvalidTimePointException(
@@ -1047,6 +1049,8 @@ class Part(object):
 
         """
 
+        # the removed object may have been the only one on its staff
+        self._number_of_staves = None
         if which in ("start", "both") and o.start:
             try:
                 o.start.starting_objects[o.__class__].remove(o)
